@@ -1,0 +1,60 @@
+//go:build verif
+
+// Contracts for package parsley (comment-only; read by /verif/govc).
+
+package parsley
+
+//@ import "errors"
+//@ import "fmt"
+//@ import "sort"
+//@ import "github.com/opsidian/parsley/data"
+
+//@ -- ---------------------------------------------------------------- errors
+//@ props C06,C08,C09,C10,C14
+
+//@ -- isWsErr(e) / isNotFound(e): errors.As(e, *whitespaceError) / errors.As(e, *NotFoundError) succeeds
+//@ abstract func isWsErr(e error) bool
+//@ abstract func isNotFound(e error) bool
+//@ -- errors.As looks through err.Unwrap(): an err value is neither target type itself
+//@ axiom [as-unwrap-ws] forall c error, p Pos :: isWsErr(err{c, p}) == isWsErr(c)
+//@ axiom [as-unwrap-nf] forall c error, p Pos :: isNotFound(err{c, p}) == isNotFound(c)
+//@ axiom [as-ws-direct] forall w whitespaceError :: isWsErr(w) && !isNotFound(w)
+//@ axiom [as-nf-direct] forall w NotFoundError :: isNotFound(w) && !isWsErr(w)
+//@ axiom [as-nil] !isWsErr(nil) && !isNotFound(nil)
+
+//@ method (e err) Pos() (r Pos) = e.pos
+//@ method (e err) Cause() (r error) = e.cause
+//@ method (e err) Unwrap() (r error) = e.cause
+
+//@ interface parsley.Error.Pos(e Error) (r Pos)
+//@   requires e != nil
+//@   ensures  r == e.Pos()
+//@   assigns  nothing
+//@ interface parsley.Error.Cause(e Error) (r error)
+//@   requires e != nil
+//@   ensures  r == e.Cause()
+//@   assigns  nothing
+
+//@ func NewError(pos Pos, cause error) (r Error)
+//@   ensures  r != nil || cause == nil
+//@   ensures  [keep] typeis[Error](cause) ==> same(r, cause)
+//@   ensures  [wrap] !typeis[Error](cause) ==> r != nil && r.Pos() == pos && same(r.Cause(), cause) && typeis[err](r)
+//@   ensures  [kind] !typeis[Error](cause) ==> isWsErr(r) == isWsErr(cause) && isNotFound(r) == isNotFound(cause)
+//@   assigns  nothing
+
+//@ assume func errors.As(e error, target interface{}) (r bool)
+//@   ensures  typeis[*whitespaceError](target) ==> r == isWsErr(e)
+//@   ensures  typeis[*NotFoundError](target) ==> r == isNotFound(e)
+//@   assigns  pointee(target)
+
+//@ func NewWhitespaceError(msg string) (r error)
+//@   ensures  typeis[whitespaceError](r) && isWsErr(r)
+//@   assigns  nothing
+
+//@ func IsWhitespaceError(e error) (r bool)
+//@   ensures  r == isWsErr(e)
+//@   assigns  nothing
+
+//@ func IsNotFoundError(e error) (r bool)
+//@   ensures  r == isNotFound(e)
+//@   assigns  nothing
